@@ -18,6 +18,7 @@ EXTENDS Naturals, Sequences, FiniteSets, TLC
 Kinds == {"int", "intList", "tokens", "tokenLists", "model", "modelList", "modelUnion", "anyType", "wildcardList",
           "attributes", "primUnion", "compound", "enum", "nillableInt", "requiredInt",
           "hierarchy", "hierarchyList", "qname",
+          "wrappedInt", "wrappedIntList", "wrappedModel",      \* fields with a WRAPPER element: {"w": {"x": value}}, or {"w": null} for no value
           "enumTokens",                     \* an enumeration of xs:list values: every member value is an array
           "compoundIntBool"}                \* a compound field whose choices are int THEN bool (bool is a subclass of int in Python)     \* a field typed with the BASE of a chain H0 <- H1 <- H2 <- H3 (each level adds a required field)
 
@@ -55,12 +56,15 @@ Canonical(k, s) ==
     [] k = "qname"         -> s \in {"null", "str", "clarkStr"}
     [] k = "compoundIntBool" -> s \in {"emptyList", "intList", "boolList", "intBoolList"}
     [] k = "enumTokens"    -> s \in {"null", "intList"}
+    [] k = "wrappedInt"     -> s \in {"null", "int"}
+    [] k = "wrappedIntList" -> s \in {"emptyList", "intList"}
+    [] k = "wrappedModel"   -> s \in {"null", "leafObj", "emptyObj"}
 
 \* C10: a scalar the declared type has no lexical form for.  The decoder keeps it (as its lexical form) with a
 \* ConverterWarning, or fails with ParserError when conversion warnings are configured to fail.
 Unconvertible(k, s) ==
-  CASE k \in {"int", "nillableInt", "requiredInt"} -> s \in {"true", "float", "str"}
-    [] k \in {"intList", "tokens"}                 -> s \in {"strList"}
+  CASE k \in {"int", "nillableInt", "requiredInt", "wrappedInt"} -> s \in {"true", "float", "str"}
+    [] k \in {"intList", "tokens", "wrappedIntList"} -> s \in {"strList"}
     [] k = "enum"                                   -> s \in {"true", "int", "float", "numstr"}
     [] k = "enumTokens"                             -> s \in {"int", "str", "numstr"}     \* ("int" is a proper PREFIX of a member)
     [] OTHER                                        -> FALSE
@@ -69,5 +73,5 @@ Unconvertible(k, s) ==
 TableSane == /\ \A k \in Kinds : \E s \in Shapes : Canonical(k, s)
              /\ ~Canonical("requiredInt", "null")
              /\ \A k \in Kinds, s \in Shapes : ~(Canonical(k, s) /\ Unconvertible(k, s))
-             /\ \A k \in {"intList", "tokens", "tokenLists", "modelList", "wildcardList", "compound", "hierarchyList", "compoundIntBool"} : Canonical(k, "emptyList") /\ ~Canonical(k, "null")
+             /\ \A k \in {"intList", "tokens", "tokenLists", "modelList", "wildcardList", "compound", "hierarchyList", "compoundIntBool", "wrappedIntList"} : Canonical(k, "emptyList") /\ ~Canonical(k, "null")
 =============================================================================
